@@ -188,3 +188,15 @@ Proof.
 Qed.
 Lemma land_1_mod v : N.land v 1 = v mod 2.
 Proof. change 1 with (N.ones 1). rewrite N.land_ones. reflexivity. Qed.
+
+(* parity helpers (kept as lemmas: lia is slow in large contexts) *)
+Lemma plus2_mod v : (v + 2) mod 2 = v mod 2.
+Proof. replace (v + 2) with (v + 1 * 2) by lia. apply N.mod_add. lia. Qed.
+Lemma even_plus1_odd v : v mod 2 = 0 -> (v + 1) mod 2 = 1.
+Proof. intro H. pose proof (N.div_mod v 2). replace (v + 1) with (1 + (v / 2) * 2) by lia. rewrite N.mod_add by lia. reflexivity. Qed.
+Lemma even_minus1_odd v : v mod 2 = 0 -> 1 <= v -> (v - 1) mod 2 = 1.
+Proof.
+  intros H L. pose proof (N.div_mod v 2). replace (v - 1) with (1 + (v / 2 - 1) * 2) by lia. rewrite N.mod_add by lia. reflexivity.
+Qed.
+Lemma odd_not_even v : v mod 2 = 1 -> v mod 2 = 0 -> False.
+Proof. intros A B. rewrite A in B. discriminate. Qed.
